@@ -4,7 +4,7 @@
 from ..isa import Isa
 from ..encoding import Instruction, Syntax, Operand
 from ..data_instructions import Dd
-from ...utils.bitfun import inrange
+from ...utils.bitfun import inrange, sign_extend, wrap_negative
 from ..generic_instructions import ArtificialInstruction, Alignment
 from ..generic_instructions import SectionInstruction
 from ..generic_instructions import RegisterUseDef, Global
@@ -230,8 +230,7 @@ class IBase(RiscvInstruction):
         tokens[0][7:12] = self.rd.num
         tokens[0][12:15] = self.func
         tokens[0][15:20] = self.rs1.num
-        self.offset = self.offset & 0xFFF
-        tokens[0][20:32] = self.offset
+        tokens[0][20:32] = wrap_negative(self.offset, 12)
         return tokens[0].encode()
 
 
@@ -510,7 +509,7 @@ class Li(PseudoRiscvInstruction):
             if (self.imm & 0x800) != 0:
                 self.imm += 0x1000
             yield Lui(self.rd, self.imm >> 12)
-            lower_bits = self.imm & 0xFFF
+            lower_bits = sign_extend(self.imm, 12)
             yield Addi(self.rd, self.rd, lower_bits)
 
 
